@@ -234,6 +234,14 @@ package compile
 //@   assumed
 //@   modifies *
 //@   ensures result != nil
+//@   ensures forallof(k, parse.Node, c.typedefChain[k] == old(c.typedefChain[k]))
+// The member types of a union are resolved on the same chain: a typedef cycle that runs through a union member is
+// still a cycle.
+//@ func (*Compiler).getTypes
+//@   requires c != nil && node != nil
+//@   modifies *
+//@   callsite @BuildType forallof(k, parse.Node, c.typedefChain[k] == old(c.typedefChain[k]))
+//@   loop 0 invariant forallof(k, parse.Node, c.typedefChain[k] == old(c.typedefChain[k]))
 //@ func (*Compiler).BuildBaseType
 //@   requires c != nil && typ != nil
 //@   modifies *
